@@ -172,6 +172,17 @@ def F3_exact_forms(t, unicode_mode, astext, single, k):
     return 3 if (astext and not unicode_mode) else 2
 
 
+def dry_runs():
+    for form in range(4):
+        for um in (False, True):
+            yield 'F1_forms', dict(t='a.b', unicode_mode=um, form=form if not (um and form == 1) else 0, ign=True, fi=True,
+                                   fm=False, fs=True, fx=False, fa=False, single=bool(form % 2), via_list=bool(form // 2))
+    for bad in range(7):
+        yield 'F2_rejected', dict(unicode_mode=True, bad=bad, entry=1 if bad == 5 else 0, pos=1, P0='ab')
+    yield 'F3_exact_forms', dict(t='ab', unicode_mode=False, astext=True, single=True, k=0)
+    yield 'F3_exact_forms', dict(t='ab', unicode_mode=True, astext=False, single=False, k=2)
+
+
 MANIFEST_ENTRY = {
     'level_text': 'Bounded symbolic verification of the real compile_pattern_list/_coerce_expect_*/expect/expect_list/'
                   'expect_exact: symbolic pattern text (<=3 ASCII characters), a symbolic set of five regex flags, '
